@@ -269,6 +269,8 @@ def run(chk):
     c10.rule_type_copy(chk, "C11.5")
     rule_lossless_writers(chk, "C11.6")
     X.rule_element_receivers(chk, "C11.7")
+    X.rule_json_type_registrations(chk, "C11.8")
+    X.rule_charset_agreement(chk, "C11.9")
 
 
 def run_thorough(chk):
